@@ -66,6 +66,9 @@ def poisson(
     slope_min = 0
     while slope_min < slope_max:
         slope = (slope_max + slope_min) / 2
+        if slope == slope_min or slope == slope_max:
+            break
+
         radius_x = np.clip((1 + r * slope) * nx / max(nx, ny), 1, None)
         radius_y = np.clip((1 + r * slope) * ny / max(nx, ny), 1, None)
         mask = _poisson(
